@@ -23,7 +23,7 @@ func init() { commands["diff-pipeline"] = diffPipeline }
 func diffPipeline() *Result {
 	r := &Result{Rule: "every input of diff-yy's generators plus every byte after mode prefixes (sampled), parsed from source bytes by the real parser.Parse and by the Lean pipeline model under 5.6, 7.2 and 7.4: lexer-warning count, semantic-error count and the complete tree are equal"}
 	loadKindCodes()
-	srcs, tags := yyInputs(r)
+	srcs, tags := yyInputsThin(r, 4)
 	var lines, real []string
 	var metas []int
 	seen := map[string]bool{}
